@@ -120,6 +120,14 @@ class RenderNode(Node):
 
                 for itm in forloop:
                     namespace[key] = itm
+                    # Each iteration renders in a new isolated context.
+                    ctx = context.copy(
+                        token=self.token,
+                        namespace=namespace,
+                        disabled_tags=self.disabled,
+                        carry_loop_iterations=True,
+                        template=template,
+                    )
                     character_count += template.render_with_context(
                         ctx, buffer, partial=True, block_scope=True
                     )
@@ -182,6 +190,14 @@ class RenderNode(Node):
 
                 for itm in forloop:
                     namespace[key] = itm
+                    # Each iteration renders in a new isolated context.
+                    ctx = context.copy(
+                        token=self.token,
+                        namespace=namespace,
+                        disabled_tags=self.disabled,
+                        carry_loop_iterations=True,
+                        template=template,
+                    )
                     character_count += await template.render_with_context_async(
                         ctx, buffer, partial=True, block_scope=True
                     )
